@@ -3,6 +3,7 @@ package main
 // Calls: builtins, modelled library functions, contracts, inlining, interface dispatch, havoc.
 
 import (
+	"sort"
 	"fmt"
 	"go/ast"
 	"go/token"
@@ -669,12 +670,7 @@ func (vc *VC) havocResultsSig(st *State, sig *types.Signature, rts []types.Type)
 
 func (vc *VC) havocForUnknownCall(st *State, callee string) {
 	vc.havocAllHeap(st)
-	for g := range vc.eng.specs.Ghosts {
-		if vc.eng.ufuns[g] != nil {
-			continue // ghost functions are state-independent
-		}
-		st.ghost[g] = vc.fresh("g_"+g, vc.eng.ghostSort(g))
-	}
+	vc.havocAllGhosts(st)
 	// package-level variables may change too
 	for o := range st.globals {
 		if ov, ok := o.(*types.Var); ok && vc.eng.immutableGlobals[ov] {
@@ -1242,6 +1238,24 @@ func (vc *VC) havocLocation(st *State, pre *State, loc string, env map[string]Va
 			vc.assumeRange(st, fv)
 			// guarded: a nil base modifies nothing
 			st.heap[key] = vc.define("H_"+key, "(Array Int "+es+")", fmt.Sprintf("(ite (= %s 0) %s (store %s %s %s))", bv.S, arr, arr, bv.S, nv))
+		}
+	}
+}
+
+// havocAllGhosts: ghost state after code with unknown effect. Ghosts not mentioned so far on this path denote their entry value and
+// are havocked like the others. Int-typed ghosts are event counters: they do not decrease.
+func (vc *VC) havocAllGhosts(st *State) {
+	var names []string
+	for g := range vc.eng.specs.Ghosts {
+		names = append(names, g)
+	}
+	sort.Strings(names)
+	for _, g := range names {
+		before := vc.ghostGet(st, g)
+		st.ghost[g] = vc.fresh("g_"+g, vc.eng.ghostSort(g))
+		if vc.eng.ghostSort(g) == "Int" {
+			vc.assume(st, fmt.Sprintf("(>= %s %s)", st.ghost[g], before))
+			vc.assumptionsUsed["int-typed ghost variables are event counters (only incremented, by ghostdef clauses): a call with unknown effect does not decrease them"] = true
 		}
 	}
 }
